@@ -14,6 +14,15 @@ fn dw(s: &str) -> u128 {
 
 fn run(p: &[&str]) -> String {
     // `g_*` ops: same real functions; the driver evaluates the source-generated Lean definitions for them
+    // `r_*` ops: the REFERENCE kernels (`reciprocal_ref`, `div_2x1_ref`); the driver evaluates their generated definitions
+    match p[0] {
+        "r_recip" => return format!("{:x}", d::reciprocal_ref(w(p[2]))),
+        "r_d2x1" => {
+            let (q, r) = d::div_2x1_ref(dw(p[2]), w(p[3]));
+            return format!("{q:x} {r:x}");
+        }
+        _ => {}
+    }
     match p[0].strip_prefix("g_").unwrap_or(p[0]) {
         "recip" => format!("{:x}", d::reciprocal(w(p[2]))),
         "recip2" => format!("{:x}", d::reciprocal_2(dw(p[2]))),
